@@ -41,6 +41,7 @@ func c05Parent(c *mon.Ctx) {
 type lineInfo struct {
 	start, end int // byte offsets, end excludes the newline
 	plain      bool
+	tabs       int // the tokenizer counts a tab as four columns and every other byte as one
 }
 
 func linesOf(s string) []lineInfo {
@@ -55,7 +56,7 @@ func linesOf(s string) []lineInfo {
 					pl = false
 				}
 			}
-			out = append(out, lineInfo{st, i, pl})
+			out = append(out, lineInfo{st, i, pl, strings.Count(ln, "\t")})
 			st = i + 1
 		}
 	}
@@ -87,7 +88,7 @@ func c05CheckLoc(a *ChildArgs, id, what string, got models.Location, wantLine, w
 			a.Rec.Viol(id+"/column", "identify the column at which that element really begins and ends", fmt.Sprintf("%s is at %d:%d, reported %d:%d", what, wantLine, wantCol, got.Line, got.Column), wit)
 			return false
 		}
-	} else if got.Column > 4*(li.end-li.start)+1 {
+	} else if got.Column > (li.end-li.start)+3*li.tabs+1 {
 		a.Rec.Viol(id+"/outside-input", "always inside the input", fmt.Sprintf("%s reported at column %d of a %d-byte line", what, got.Column, li.end-li.start), wit)
 		return false
 	}
@@ -223,15 +224,19 @@ func c05Child(a *ChildArgs) {
 		for wi, w1 := range starts {
 			for ni, nx := range nexts {
 				for sep := 1; sep < len(lexgen.SepNames); sep++ {
-					for cs := 0; cs < 2; cs++ {
+					for cs := 0; cs < 4; cs++ {
 						lexgen.Rot = wi*7 + ni*3 + sep
+						lead := "t"
+						if cs >= 2 {
+							lead = "accounts_receivable_2024_q3" // a rewound look-ahead is shorter than the text before it
+						}
 						kc := func(i int, s string) string {
-							if cs == 1 {
+							if cs%2 == 1 {
 								return strings.ToLower(s)
 							}
 							return s
 						}
-						lex := []lexgen.Lexeme{ident("t"), kwl(w1)}
+						lex := []lexgen.Lexeme{ident(lead), kwl(w1)}
 						seps := []int{0, 1, sep}
 						if nx != "" {
 							lex = append(lex, kwl(nx), ident("c"))
